@@ -411,7 +411,15 @@ pub fn run(opts: &RndOpts, tw: &mut TraceWriter) {
             } else if choice < 80 {
                 let n = env.rng.random_range(0..4);
                 let own = node.id();
-                let ms = (0..n).map(|_| env.rand_member(own)).collect();
+                let mut ms: Vec<Member<Id>> = (0..n).map(|_| env.rand_member(own)).collect();
+                // targeted self-updates: suspicions below / at / above the own incarnation, MAX-1, MAX, Down
+                if env.rng.random_range(0..5) == 0 {
+                    let cur = node.foca.verif_snapshot().incarnation;
+                    let inc = pick(&mut env.rng, &[cur, cur.saturating_add(1), cur.saturating_sub(1), 65534, 65535, 0]);
+                    let st = pick(&mut env.rng, &[State::Suspect, State::Suspect, State::Suspect, State::Down, State::Alive]);
+                    let at = env.rng.random_range(0..=ms.len());
+                    ms.insert(at, Member::new(own, inc, st));
+                }
                 Call::ApplyMany(ms, env.rng.random_range(0..3) != 0)
             } else if choice < 83 {
                 Call::Announce(env.peer())
